@@ -210,11 +210,14 @@ Lemma machine_words :
   (max_pixels < 2 ^ info_leaf_bits /\ max_pixels < 2 ^ info_color_bits /\ max_pixels < 2 ^ info_min_bits /\
    max_pixels < 2 ^ leaf_index_bits)%N /\
   (3 * 255 * 255 < 2 ^ kd_dist_bits)%N /\ (255 < 2 ^ kd_color_bits)%N /\
-  rnd_state_bits = 32%N /\ (16 <= color_error_significand_bits)%N.
+  rnd_state_bits = 32%N /\ (16 <= color_error_significand_bits)%N /\
+  (* a palette has at most one entry per pixel: every index fits the k-d node's index field *)
+  (max_pixels < 2 ^ kd_index_bits)%N.
 Proof.
   split; [exact widths_adequate|]. split; [apply limits_are_powers|]. split; [apply limits_are_powers|].
   split; [repeat split; vm_compute; reflexivity|]. split; [vm_compute; reflexivity|].
-  split; [vm_compute; reflexivity|]. split; [reflexivity|]. vm_compute. discriminate.
+  split; [vm_compute; reflexivity|]. split; [reflexivity|]. split; [vm_compute; discriminate|].
+  vm_compute; reflexivity.
 Qed.
 
 Lemma fits_bound_mono a b : (a <= b)%N -> fits_bound b -> fits_bound a.
